@@ -3,7 +3,7 @@
 // Re-run: /verif/bin/check C20 --replay /verif/replays/C20/inverse_law_3x3.rs
 // Failing check: assertion ""C20: resolve(a, relative(a, b)) == normalize(b)""
 #[test]
-fn kani_concrete_playback_inverse_law_3x3_15863077765107909216() {
+fn kani_concrete_playback_inverse_law_3x3_221364831338678184() {
     let concrete_vals: std::vec::Vec<std::vec::Vec<u8>> = std::vec![
         // 3ul
         std::vec![3, 0, 0, 0, 0, 0, 0, 0],
@@ -19,8 +19,8 @@ fn kani_concrete_playback_inverse_law_3x3_15863077765107909216() {
         std::vec![0],
         // 1
         std::vec![1],
-        // 0
-        std::vec![0],
+        // 1
+        std::vec![1],
     ];
     kani::concrete_playback_run(concrete_vals, inverse_law_3x3);
 }
